@@ -38,7 +38,14 @@ fn tick_layout() {
     kani::assume(bytes[0] <= 1); // a bool byte written by the program
     let view: &MemoryMappedTick = unsafe { &*(bytes.as_ptr() as *const MemoryMappedTick) };
     let t: Tick = unsafe { core::ptr::read_unaligned(bytes.as_ptr() as *const Tick) };
-    let (init, net, gross, fa, fb, rg) = (t.initialized, t.liquidity_net, t.liquidity_gross, t.fee_growth_outside_a, t.fee_growth_outside_b, t.reward_growths_outside);
+    let (init, net, gross, fa, fb, rg) = (
+        t.initialized,
+        t.liquidity_net,
+        t.liquidity_gross,
+        t.fee_growth_outside_a,
+        t.fee_growth_outside_b,
+        t.reward_growths_outside,
+    );
     assert!(view.initialized() == init);
     assert!(view.liquidity_net() == net);
     assert!(view.liquidity_gross() == gross);
@@ -58,9 +65,13 @@ fn tick_layout() {
 #[kani::unwind(33)]
 fn whirlpool_view_reads() {
     let bytes: [u8; 653] = kani::any();
-    let w = { let mut data: &[u8] = &bytes[8..]; Whirlpool::deserialize(&mut data).unwrap() };
+    let w = {
+        let mut data: &[u8] = &bytes[8..];
+        Whirlpool::deserialize(&mut data).unwrap()
+    };
     {
-        let view: &MemoryMappedWhirlpool = unsafe { &*(bytes.as_ptr() as *const MemoryMappedWhirlpool) };
+        let view: &MemoryMappedWhirlpool =
+            unsafe { &*(bytes.as_ptr() as *const MemoryMappedWhirlpool) };
         assert!(view.tick_spacing() == w.tick_spacing);
         assert!(view.liquidity() == w.liquidity);
         assert!(view.sqrt_price() == w.sqrt_price);
@@ -91,23 +102,61 @@ fn whirlpool_view_reads() {
 #[kani::unwind(33)]
 fn whirlpool_view_writes() {
     let mut bytes: [u8; 653] = kani::any();
-    let w = { let mut data: &[u8] = &bytes[8..]; Whirlpool::deserialize(&mut data).unwrap() };
-    let liq: u128 = kani::any(); let g: [u128; 3] = kani::any(); let ts: u64 = kani::any();
+    let w = {
+        let mut data: &[u8] = &bytes[8..];
+        Whirlpool::deserialize(&mut data).unwrap()
+    };
+    let liq: u128 = kani::any();
+    let g: [u128; 3] = kani::any();
+    let ts: u64 = kani::any();
     {
-        let view: &mut MemoryMappedWhirlpool = unsafe { &mut *(bytes.as_mut_ptr() as *mut MemoryMappedWhirlpool) };
+        let view: &mut MemoryMappedWhirlpool =
+            unsafe { &mut *(bytes.as_mut_ptr() as *mut MemoryMappedWhirlpool) };
         view.update_liquidity_and_reward_growth_global(liq, &g, ts);
     }
-    let w2 = { let mut data: &[u8] = &bytes[8..]; Whirlpool::deserialize(&mut data).unwrap() };
+    let w2 = {
+        let mut data: &[u8] = &bytes[8..];
+        Whirlpool::deserialize(&mut data).unwrap()
+    };
     let mut expect = w.clone();
-    expect.liquidity = liq; expect.reward_last_updated_timestamp = ts;
-    expect.reward_infos[0].growth_global_x64 = g[0]; expect.reward_infos[1].growth_global_x64 = g[1]; expect.reward_infos[2].growth_global_x64 = g[2];
-    assert!(w2.whirlpools_config == expect.whirlpools_config && w2.whirlpool_bump == expect.whirlpool_bump && w2.tick_spacing == expect.tick_spacing);
-    assert!(w2.fee_tier_index_seed == expect.fee_tier_index_seed && w2.fee_rate == expect.fee_rate && w2.protocol_fee_rate == expect.protocol_fee_rate);
-    assert!(w2.liquidity == expect.liquidity && w2.sqrt_price == expect.sqrt_price && w2.tick_current_index == expect.tick_current_index);
-    assert!(w2.protocol_fee_owed_a == expect.protocol_fee_owed_a && w2.protocol_fee_owed_b == expect.protocol_fee_owed_b);
-    assert!(w2.token_mint_a == expect.token_mint_a && w2.token_vault_a == expect.token_vault_a && w2.fee_growth_global_a == expect.fee_growth_global_a);
-    assert!(w2.token_mint_b == expect.token_mint_b && w2.token_vault_b == expect.token_vault_b && w2.fee_growth_global_b == expect.fee_growth_global_b);
+    expect.liquidity = liq;
+    expect.reward_last_updated_timestamp = ts;
+    expect.reward_infos[0].growth_global_x64 = g[0];
+    expect.reward_infos[1].growth_global_x64 = g[1];
+    expect.reward_infos[2].growth_global_x64 = g[2];
+    assert!(
+        w2.whirlpools_config == expect.whirlpools_config
+            && w2.whirlpool_bump == expect.whirlpool_bump
+            && w2.tick_spacing == expect.tick_spacing
+    );
+    assert!(
+        w2.fee_tier_index_seed == expect.fee_tier_index_seed
+            && w2.fee_rate == expect.fee_rate
+            && w2.protocol_fee_rate == expect.protocol_fee_rate
+    );
+    assert!(
+        w2.liquidity == expect.liquidity
+            && w2.sqrt_price == expect.sqrt_price
+            && w2.tick_current_index == expect.tick_current_index
+    );
+    assert!(
+        w2.protocol_fee_owed_a == expect.protocol_fee_owed_a
+            && w2.protocol_fee_owed_b == expect.protocol_fee_owed_b
+    );
+    assert!(
+        w2.token_mint_a == expect.token_mint_a
+            && w2.token_vault_a == expect.token_vault_a
+            && w2.fee_growth_global_a == expect.fee_growth_global_a
+    );
+    assert!(
+        w2.token_mint_b == expect.token_mint_b
+            && w2.token_vault_b == expect.token_vault_b
+            && w2.fee_growth_global_b == expect.fee_growth_global_b
+    );
     assert!(w2.reward_last_updated_timestamp == expect.reward_last_updated_timestamp);
     let mut k = 0;
-    while k < 3 { assert!(w2.reward_infos[k] == expect.reward_infos[k]); k += 1; }
+    while k < 3 {
+        assert!(w2.reward_infos[k] == expect.reward_infos[k]);
+        k += 1;
+    }
 }
